@@ -1973,6 +1973,11 @@ class Interp:
         if isinstance(v, GenV):
             return self.materialise(v)
         if isinstance(v, (SymList, MapSeq)):
+            c = self.forced_length(v)
+            if c is not None:
+                for i in range(c):
+                    self.register_index(z3.IntVal(i))  # quantified assumptions are instantiated on the unrolled positions
+                return [self.seq_elem(v, z3.IntVal(i)) for i in range(c)]
             return v
         if is_arr(v):
             n = concrete_int(self.arr_len(v))
@@ -1981,6 +1986,24 @@ class Interp:
                 return [rd(i) for i in range(n)]
             return MapSeq(self.arr_len(v), rd, is_array=True)
         raise Unsupported("iteration over %r" % (v,))
+
+    def forced_length(self, v):
+        """contract option `unroll_max`: a symbolic sequence whose length the path condition forces to a constant c <= unroll_max
+        is iterated element by element (complete for that length; the contract states the length in its precondition)"""
+        lim = getattr(self, "unroll_max", None)
+        if not lim:
+            return None
+        n = self.seq_len(v)
+        c = concrete_int(n)
+        if c is not None:
+            return c if c <= lim else None
+        n = to_z3num(n)
+        for c in range(lim + 1):
+            if not self.feasible(n != c):
+                return c
+            if self.feasible(n == c):
+                return None
+        return None
 
     def materialise(self, g):
         """evaluate a comprehension: list for concrete iterables, MapSeq for one symbolic generator without ifs"""
